@@ -207,3 +207,70 @@ func init() {
 		Stubs:  stubErrors,
 	})
 }
+
+func init() {
+	register(&PropSpec{
+		ID:   "C07",
+		Pkgs: []string{"root"},
+		Items: func(tier string, seed int64) []Item {
+			var it []Item
+			for i := 0; i < nMacSpecs; i++ {
+				it = append(it, Item{PkgKey: "root", Func: "VerifC07_RoundTrip", Shape: []int{i}})
+			}
+			return it
+		},
+		Bounds: func(tier string) map[string]string { return map[string]string{} },
+		Stubs:  stubErrors,
+	})
+}
+
+// spec-table indices by direction (see harness/root/spec_mac.go)
+var macDown = rng(0, 16)
+var macUp = rng(17, 28)
+
+func init() {
+	p := props["C07"]
+	old := p.Items
+	p.Items = func(tier string, seed int64) []Item {
+		it := old(tier, seed)
+		for up := 0; up <= 1; up++ {
+			for _, l := range pick(tier, rng(0, 4), rng(0, 6)) {
+				it = append(it, Item{PkgKey: "root", Func: "VerifC07_Stream", Shape: []int{up, l}})
+			}
+			set := macDown
+			if up == 1 {
+				set = macUp
+			}
+			for _, a := range set {
+				it = append(it, Item{PkgKey: "root", Func: "VerifC07_Seq", Shape: []int{up, a, -1, -1}})
+				for _, b := range set {
+					it = append(it, Item{PkgKey: "root", Func: "VerifC07_Seq", Shape: []int{up, a, b, -1}})
+					if tier == "thorough" {
+						for _, c := range set {
+							it = append(it, Item{PkgKey: "root", Func: "VerifC07_Seq", Shape: []int{up, a, b, c}})
+						}
+					}
+				}
+			}
+		}
+		for _, l := range pick(tier, rng(1, 3), rng(1, 4)) {
+			it = append(it, Item{PkgKey: "root", Func: "VerifC07_Proprietary", Shape: []int{l}})
+		}
+		return it
+	}
+}
+
+func init() {
+	register(&PropSpec{
+		ID:   "SELFTEST",
+		Pkgs: []string{"root"},
+		Items: func(tier string, seed int64) []Item {
+			return []Item{
+				{PkgKey: "root", Func: "VerifC03_FRMFunc", Shape: []int{17}},
+				{PkgKey: "root", Func: "VerifC02_Uplink", Shape: []int{1, 1, 2, 3}},
+				{PkgKey: "root", Func: "VerifC08_Canonical", Shape: []int{13}},
+			}
+		},
+		Bounds: func(tier string) map[string]string { return map[string]string{} },
+	})
+}
